@@ -235,6 +235,7 @@ def emit_tu(sj, header='<hfsm2/machine.hpp>', main='vh_main.hpp', extra_defs='')
 static const vh::Shape VH_SHAPE = {{ {len(nodes)}, {len(regions)}, VH_PARENT, VH_PRONG, VH_KIND, VH_STRAT, VH_HEADLESS, VH_NCHILD, VH_CHILD0, VH_CHILDREN, VH_REGION_OF, VH_REGION_HEAD, VH_SUBTREE }};
 static const char* const VH_SHAPE_NAME = "{sj['name']}";
 static const int VH_WIDTH1 = {1 if sj['width1'] else 0};
+{'#define VH_NO_SERIAL' if sj['width1'] else ''}
 #include "vh_node.hpp"
 using Config = {cfgchain};
 using M = hfsm2::MachineT<Config>;
